@@ -32,10 +32,10 @@ CHECKS = {
    text="Metamorphic simulation: each seeded pipelined stream (every opcode, wrong-shape frames, now and then an oversized one, one stream in eight with a large in-limit store of 4 KiB .. 66 KB mid-pipeline) is delivered to a fresh server one-shot and then under every single cut point, all pairs of cuts at the decoder for short streams (sampled pairs at the socket), byte-at-a-time and random cuttings; response bytes, close state and final store dump must equal the one-shot reference, and on the reference every frame must occupy exactly 24+body_length bytes or the connection closes there. Segmentation is the schedule dimension the simulated transport owns.",
    tech="deterministic simulation: simulator-chosen TCP segmentation, metamorphic comparison + framing model"),
  "C11": dict(cat="exploration", ref="7 C11",
-   text="Every response the simulator receives (all rings, all checks) is re-parsed by an independent response parser; this check drives a workload maximising opcode x outcome x store-state x size coverage (values up to 300 KB, lengths at 2^12 / 2^15 / 2^16 / 2^17 +- 1) (incl. too-large, not-supported, non-numeric, key-exists) and validates each frame against its request. No schedule/fault dimension of its own.",
+   text="Every response the simulator receives (all rings, all checks) is re-parsed by an independent response parser; this check drives a workload maximising opcode x outcome x store-state x size coverage (values up to 300 KB, lengths at 2^12 / 2^15 / 2^16 / 2^17 +- 1) (incl. too-large, not-supported, non-numeric, key-exists) and validates each frame against its request (a response carrying the head request's opaque under another opcode is 'opcode-not-echoed'). No schedule/fault dimension of its own.",
    tech="deterministic simulation (rings H/N) with an independent response validator"),
  "C12": dict(cat="exploration", ref="7 C12",
-   text="Whole server on the simulated transport: pipelines mixing loud/quiet variants of every opcode, unimplemented and unknown opcodes, quit/quitq anywhere, 1-3 connections, random segmentation, pipelines of several KiB in few pieces, now and then a request above a small item limit mid-pipeline; after every event the server is run to quiescence, so 'no response' is decided rather than timed out; responses must arrive in request order, one per loud request of a known opcode, quiet rules, quit rules, nothing after quit executed (observer connection).",
+   text="Whole server on the simulated transport: pipelines mixing loud/quiet variants of every opcode, unimplemented and unknown opcodes, quit/quitq anywhere, 1-3 connections, random segmentation, pipelines of several KiB in few pieces, now and then a request above a small item limit mid-pipeline; after every event the server is run to quiescence, so 'no response' is decided rather than timed out; responses must arrive in request order, one per loud request of a known opcode, quiet rules in both directions (a quiet error must be answered, a quiet success of any store / concat / counter / delete / flush must not), quit rules, nothing after quit executed (observer connection).",
    tech="deterministic simulation: whole server on simulated transport, run-to-quiescence, framing + reference model"),
  "C13": dict(cat="exploration", ref="7 C13",
    text="Whole server on the simulated transport under item limits 1 KiB..4 MiB: a request with body length limit-1 / limit / limit+1 / 2x / 16 MiB of every opcode of the protocol table (loud, quiet, quit/quitq, unimplemented) at any pipeline position, with the simulator choosing exactly how many body bytes are readable when the oversized header is parsed (0, 1, half+-1, all-1, all, all + following requests, around the 4 KiB initial buffer); 0x03 above the limit only, exactly body_length bytes discarded, following requests answered in order, store unchanged.",
@@ -49,10 +49,10 @@ CHECKS = {
    tech="deterministic simulation: baton scheduler, seeded schedule search, linearizability checker with relaxed-spec attribution of known findings",
    note="Trusted base as C03; the relaxed specification (lin.rs) models memc-rs's Cache::set semantics and is used only to decide whether a failing history is one of the recorded read-modify-write windows."),
  "C14": dict(cat="exploration", ref="7 C14",
-   text="Sequential (ring H): workloads of stores/overwrites/appends/counter updates/deletes/flushes/expiries under random eviction with limits 0..100000 and record sizes around and above the limit; after every single command the sum of Record::len() over the inner store must be <= limit + record just written and a record just acknowledged must be present. Concurrent (ring T, 1 run in 5): 2-3 clients x 1-3 stores/deletes under seeded schedules; at the end the sum must be <= limit + one record per store that overlapped another store + the last store, and after each of 1-2 sequential 'settle' stores that follow the sequential bound must hold again. Victim choice is seeded (hook), iteration order deterministic.",
+   text="Sequential (ring H): workloads of stores/overwrites/appends/counter updates/deletes/flushes/expiries under random eviction with limits 0..100000 and record sizes around and above the limit; after every single command the sum of Record::len() over the inner store must be <= limit + record just written and a record just acknowledged must be present. Concurrent (ring T, 1 run in 5): 2-3 clients x 1-3 stores/deletes under seeded schedules; at the end the sum must be <= limit + one record per store that overlapped another store + the last store, and after each of 1-2 sequential 'settle' stores that follow the sequential bound must hold again. Victim choice is seeded (hook), iteration order deterministic. A run that never returns (the sweep spinning) is reported as C14:hang by the wall-clock watchdog.",
    tech="deterministic simulation: per-command invariant on ring H + scheduler-controlled concurrent programs on ring T"),
  "C15": dict(cat="exploration", ref="7 C15",
-   text="Ring H, long workloads (30..10000 commands of every kind) over a live set of 2-5 small items under a limit 20-1000x the live set (one workload in three: a limit its own accounted usage reaches exactly, found by a dry run). A record of a key the command does not address that vanishes during a store was evicted, which is only allowed when accounted usage + the record being written exceeds the limit. After every command accounted usage (hook accessor) minus stored bytes must not grow; every growth is attributed to an exact mechanism (overwrite adds without subtracting the replaced record; failed conditional store still counted; expired item collected on access; flush bypasses the accounting) by matching the amount, and anything not matched exactly is a VIOLATION (drift:unexplained). Concurrent side (ring T, 1 run in 4): 2-3 clients of fresh-key stores, deletes of existing keys and gets under limits 80-400 bytes; none of the recorded mechanisms can occur there and the recorded races only lower the counter, so accounted usage > stored bytes afterwards is a VIOLATION. For a plain store that starts above the limit the sweep's arithmetic is checked exactly. Behavioural form: a model-live key that misses is a VIOLATION unless the accounted usage had exceeded the limit (the recorded consequence of the drift). The four mechanisms and the consequence are open known findings with embedded 2-3 command histories.",
+   text="Ring H, long workloads (30..10000 commands of every kind) over a live set of 2-5 small items under a limit 20-1000x the live set (one workload in three: a limit its own accounted usage reaches exactly, found by a dry run). A record of a key the command does not address that vanishes during a store was evicted, which is only allowed when accounted usage + the record being written exceeds the limit. After every command accounted usage (hook accessor) minus stored bytes must not grow; every growth is attributed to an exact mechanism (overwrite adds without subtracting the replaced record; failed conditional store still counted; expired item collected on access; flush bypasses the accounting) by matching the amount, and anything not matched exactly is a VIOLATION (drift:unexplained). Concurrent side (ring T, 1 run in 4): 2-3 clients of fresh-key stores, deletes of existing keys and gets under limits 80-400 bytes; none of the recorded mechanisms can occur there and the recorded races only lower the counter, so accounted usage > stored bytes afterwards is a VIOLATION. For a plain store that starts above the limit the sweep's arithmetic is checked exactly. Behavioural form: a model-live key that misses is a VIOLATION unless the accounted usage had exceeded the limit (the recorded consequence of the drift). Every sequential run also builds the store the way the server does (MemcacheStoreBuilder::from_config, random eviction) under a limit drawn from 2^20 .. 2^64-1 (around 2^32 in particular), stores 2-16 records of 32 bytes and expects each back. The four mechanisms and the consequence are open known findings with embedded 2-3 command histories.",
    tech="deterministic simulation: per-command accounting invariant with exact attribution + reference model; baton-scheduled concurrent programs with an over-count oracle"),
  "C16": dict(cat="exploration", ref="7 C16",
    text="Ring T: 2-3 clients issuing any commands (single-key, multi-key, immediate and delayed flush over all shards, stores that trigger eviction sweeps, expiry collection) under seeded random / PCT schedules; the scheduler keeps the holder table of every shard lock and only grants a thread whose next acquire can succeed, so 'no thread can be granted, some unfinished' is an exact deadlock (reported with who waits for which lock held by whom); a step budget (20000 scheduling points, programs need < 500) reports livelock; a 30 s wall-clock watchdog reports a step that never reaches a scheduling point.",
@@ -62,10 +62,10 @@ CHECKS = {
    text="Ring H: the full grid of header fields for every opcode 0..255 (key length {0..3, 8, 250, 251, 65535} x every extras length around the parsers' 4/8/20-byte blocks x body length small, around key+extras, around the item limit and up to 2^32-1 x magic/data type x CAS x bytes present), fed one-shot / header-first / in small chunks to the real decoder, every decoded request executed and encoded, under overflow checks. Ring N: byzantine clients (noise, valid frames with one field replaced by an extreme, short self-consistent frames of any opcode, counters with extreme operands, bit flips) with random segmentation against the whole server, then silence past the idle timeout and a well-behaved client; one run in 2000 streams a request announcing 0.5-2 MiB (limit 1-4 KiB) in 4-16 KiB pieces. Oracle: no panic, quiescence within the poll budget, listed-invalid frames never executed, decode buffer capacity bounded (ring H), no length-proportional allocation and a bound on the memory held for a connection while an oversized body streams in (per-thread counting allocator, ring N), connection released, server still serving.",
    tech="deterministic simulation: enumerated header grid on the decoder + seeded byzantine streams on the simulated transport, counting allocator"),
  "C17": dict(cat="exploration", ref="7 C17",
-   text="Whole server on the simulated transport for limits 1-4 and idle timeouts 1-10 s: seeded histories of 3..10 x limit connection lifecycles with overlapping arrivals, each ending by client close, close after work, quit, quitq, close mid-header, close mid-body, invalid magic, unknown opcode, oversized item then close, idle timeout (virtual time; silence with an empty buffer, mid header, mid body, after a complete request, and with a partial request behind a complete one), reset or reset mid-request, with noop probes in between. Invariants at quiescence after every event: served <= limit; if any connection waits exactly limit are served; served connections answer, unserved do not. Bounded liveness after the last fault: exactly limit fresh connections are served, one more only after a slot is freed.",
+   text="Whole server on the simulated transport for limits 1-4 and idle timeouts 1-10 s: seeded histories of 3..10 x limit connection lifecycles with overlapping arrivals, each ending by client close, close after work, quit, quitq, close mid-header, close mid-body, invalid magic, unknown opcode, oversized item then close, close inside an oversized body, idle timeout (virtual time; silence with an empty buffer, mid header, mid body, after a complete request, with a partial request behind a complete one, inside an oversized body, after an oversized request), reset or reset mid-request, with noop probes in between. Invariants at quiescence after every event: served <= limit; if any connection waits exactly limit are served; served connections answer, unserved do not. Bounded liveness after the last fault: exactly limit fresh connections are served, one more only after a slot is freed.",
    tech="deterministic simulation: connection-lifecycle fault injection on the simulated transport with run-to-quiescence invariants and bounded liveness"),
  "C18": dict(cat="fault_enumeration", ref="7 C18",
-   text="For every seeded pipelined stream (counter increments, stores, appends; loud and quiet) EVERY cut offset 0..=length x EVERY fault kind (orderly close, half-close, abortive reset, abortive reset while the server is blocked writing with further requests buffered, corrupted header byte, truncation followed by silence to the idle timeout) runs on a fresh whole server with an observer connection; the observer must see exactly the state after the completely sent requests (after a reset: after a prefix), well-formed answers, a released faulty connection and a serving server. The enumeration over cut points and fault kinds of each generated stream is complete; streams are sampled.",
+   text="For every seeded pipelined stream (counter increments, stores, appends; loud and quiet) EVERY cut offset 0..=length x EVERY fault kind (orderly close, half-close, abortive reset, abortive reset while the server is blocked writing with further requests buffered, corrupted header byte, truncation followed by silence to the idle timeout) runs on a fresh whole server with an observer connection; the observer must see exactly the state after the completely sent requests (after a reset: after a prefix), well-formed answers, a released faulty connection and a serving server (a run that never returns - a connection task spinning after the fault - is reported as C18:hang by the wall-clock watchdog). The enumeration over cut points and fault kinds of each generated stream is complete; streams are sampled.",
    tech="deterministic simulation with fault enumeration: every byte offset x fault kind per stream on the simulated transport"),
  "C19": dict(cat="exploration", ref="7 C19",
    text="Paired simulated runs from one seed: program P and P' with a random subset of positions switched between loud and quiet opcodes, each on a fresh identical server (ring H; 1 pair in 5 on ring N with identical segmentation), with the CAS tokens P resolved carried over literally, followed by dumps of every key under a common clock-advance schedule. Untoggled positions and all dumps (values, flags, CAS, expiry) must be answered byte-identically; toggled positions: errors identical apart from the opcode, quiet success / quiet miss silent, quiet hit payload = loud hit payload. Metamorphic; no fault dimension of its own.",
